@@ -72,9 +72,15 @@ func genQuorum(r *Rand, n int, tier string, w *bufio.Writer) {
 	const maxT = uint64(1)<<31 - 1
 	for c := 0; c < n; c++ {
 		fmt.Fprintf(w, "# case %d\n", c)
-		kind := r.Intn(6)
+		kind := r.Intn(7)
 		var ids, ws []uint64
 		switch kind {
+		case 6: // large sets (more than 32 / 64 validators): every validator counted once
+			k := 30 + r.Intn(110)
+			for i := 0; i < k; i++ {
+				ids = append(ids, uint64(1000+i))
+				ws = append(ws, uint64(1+r.Intn(3)))
+			}
 		case 0: // single validator of boundary / random total
 			t := r.Around(32, 1, 2, 3, 4, maxT/3, maxT/2, maxT*2/3, maxT-1, maxT, maxT+1, 1<<31, 1<<32-1, 1431655765, 1431655766, 715827882, 715827883)
 			if t == 0 {
@@ -137,6 +143,12 @@ func genQuorum(r *Rand, n int, tier string, w *bufio.Writer) {
 			continue
 		}
 		steps := r.Intn(2*nv + 3)
+		if kind == 6 {
+			for _, i := range r.Perm(nv) {
+				fmt.Fprintf(w, "countidx %d\n", i)
+			}
+			steps = 5
+		}
 		for s := 0; s < steps; s++ {
 			switch r.Intn(8) {
 			case 0:
